@@ -1432,14 +1432,7 @@ class FortranFile:
             if line == "":
                 continue  # Skip empty lines
 
-            # Parse documentation strings to AST nodes, this implicitly operates
-            # on docs, i.e. appends or nullifies it
-            idx = self.parse_docs(line, line_no, file_ast, docs)
-            if idx:
-                line_no = idx
-                line_no_end = line_no
-                continue
-            # Handle preprocessing regions
+            # Handle preprocessing regions (their comment lines document nothing)
             do_skip = False
             for pp_reg in pp_skips:
                 if (line_no >= pp_reg[0]) and (line_no <= pp_reg[1]):
@@ -1448,6 +1441,13 @@ class FortranFile:
             if line_no in pp_defines:
                 do_skip = True
             if do_skip:
+                continue
+            # Parse documentation strings to AST nodes, this implicitly operates
+            # on docs, i.e. appends or nullifies it
+            idx = self.parse_docs(line, line_no, file_ast, docs)
+            if idx:
+                line_no = idx
+                line_no_end = line_no
                 continue
             # A fixed form comment line holds no statements, whatever its text
             if (
